@@ -379,10 +379,15 @@ class EvolvableMultiInput(EvolvableModule):
 
         # Optionally, use an EvolvableMLP for all concatenated vector inputs
         if self.vector_space_mlp:
-            init_dict = copy.deepcopy(
-                self.get_inner_init_dict("vector_mlp", default="mlp")
+            # NOTE: Once built, the vector MLP is registered under its own name: look its
+            # current configuration up there, not under the default key
+            mlp_key = (
+                self.mlp_name
+                if self.mlp_name is not None
+                else self.mlp_config.get("name", "vector_mlp")
             )
-            self.mlp_name = init_dict.pop("name", "vector_mlp")
+            init_dict = copy.deepcopy(self.get_inner_init_dict(mlp_key, default="mlp"))
+            self.mlp_name = init_dict.pop("name", mlp_key)
             vector_mlp = EvolvableMLP(
                 num_inputs=self.total_vector_dims, name=self.mlp_name, **init_dict
             )
